@@ -52,7 +52,7 @@ class C04(Prop):
     assumptions = (
         "reference evaluator vf/lang.py evaluates all substituted values in the caller's environment, then the body",
         "index tensors hold integer data (boolean arrays are numpy masks, not indices)",
-        "Gaussian and Delta f are exercised by C12 and C14 with their dense oracles",
+        "Gaussian leaves occur inside the generated lazy terms (dense -1/2||xS-w||^2 oracle); Delta f is exercised by C14",
     )
     cases = {"quick": 4000, "thorough": 150000}
 
@@ -60,8 +60,9 @@ class C04(Prop):
         d = 2 if tier == "quick" else 3
         a = sub_cases(Opts(max_depth=d))
         b = sub_cases(Opts(max_depth=d, reals=True))
+        c = sub_cases(Opts(max_depth=d, reals=True, gauss=True))
         modes = st.tuples(st.sampled_from(F_MODES), st.sampled_from(S_MODES))
-        return st.tuples(st.one_of(a, a, b), modes).map(lambda t: dict(t[0], fmode=t[1][0], smode=t[1][1]))
+        return st.tuples(st.one_of(a, a, b, c), modes).map(lambda t: dict(t[0], fmode=t[1][0], smode=t[1][1]))
 
     def describe(self, case):
         s = f"[{case['fmode']}/{case['smode']}] ({show(case['f'])})(" + ", ".join(f"{k}={show_value(v)}" for k, v in case["subs"]) + ")"
